@@ -1,8 +1,18 @@
 //! C17: the real `FallbackLayer` (built through its public builder) over the scripted inner service.
 //!
 //! header: `fallback strategy=<value|value_fn|from_error|from_request_error|service|exception>
-//!          [handle=<bit mask over error kinds>] val=<n>`
+//!          [handle=<bit mask over error kinds>] val=<n> [ready=<script>] [bready=<script>]`
+//!          `ready=`: the wrapped service answers successive `poll_ready` calls (on any clone) from
+//!          the script ('r' ready, 'p' pending, 'e' error `IErr{9,0}`; ready once exhausted) —
+//!          `Inner::strict`; `bready=`: the same for the backup service of the service strategy,
+//!          whose closure is then `|req| async move { backup.ready().await?.call(req).await }` (the
+//!          layer itself cannot poll the backup's readiness: it only has a `Fn(Req) -> Future`);
+//!          without `bready=` the closure is `|req| backup.call(req)`: the call is made in its
+//!          synchronous part.
 //! arrive: `arrive <c> tag=<t> inner=<lat>:<out>[,<lat>:<out> for the backup call]`
+//!          the caller clones the service and polls it ready ONCE: pending -> `result c notready`
+//!          (it gives up), error -> `resp`/`result` lines with that error rendered like a call error
+//!          (so a transformed or otherwise handled readiness error is visible), ready -> the call.
 //! manual: `manual dropsvc` — the caller drops every handle it holds: the service, (every clone is
 //!          a temporary of `arrive` already) and the layer, while call futures may be in flight
 //!          (`svc.oneshot(req)`; `let f = svc.call(req); drop(svc); f.await`). Later `arrive`s are
@@ -29,6 +39,7 @@ impl Adapter {
         let val = kv.u64("val", 0);
         type B = tower_resilience_fallback::FallbackConfigBuilder<Req, Resp, IErr>;
         let strategy_name = kv.str("strategy", "value");
+        let bready = kv.get("bready").map(|x| x.to_string());
         let strategy = move |b: B| -> B {
             match strategy_name.as_str() {
                 "value_fn" => {
@@ -47,13 +58,29 @@ impl Adapter {
                     log(format!("strategy from_request_error {} {} {} {}", rq.c, rq.tag, e.kind, e.v));
                     Resp { v: e.v, c: rq.c, tag: rq.tag * 100 + e.kind as u64 }
                 }),
-                "service" => {
-                    let backup = Inner::labelled("b");
-                    b.service(move |rq: Req| {
-                        let mut s = backup.clone();
-                        s.call(rq)
-                    })
-                }
+                "service" => match &bready {
+                    // without a readiness script: the backup call is made in the synchronous part of the closure
+                    // (`|req| client.call(req)`), so WHEN the layer invokes the closure is visible in the log
+                    None => {
+                        let backup = Inner::labelled("b");
+                        b.service(move |rq: Req| {
+                            let mut s = backup.clone();
+                            s.call(rq)
+                        })
+                    }
+                    // with one: `|req| async move { client.ready().await?.call(req).await }`
+                    Some(script) => {
+                        let mut backup = Inner::strict(script);
+                        backup.label = "b";
+                        b.service(move |rq: Req| {
+                            let mut s = backup.clone();
+                            async move {
+                                std::future::poll_fn(|cx| s.poll_ready(cx)).await?;
+                                s.call(rq).await
+                            }
+                        })
+                    }
+                },
                 "exception" => b.exception(|e: IErr| {
                     log(format!("strategy exception {} {}", e.kind, e.v));
                     IErr { kind: e.kind.wrapping_add(10), v: e.v }
@@ -76,7 +103,11 @@ impl Adapter {
         let b = FallbackLayer::<Req, Resp, IErr>::builder().name("verif");
         let b = if kv.u64("order", 0) == 1 { strategy(handle(b)) } else { handle(strategy(b)) };
         let layer = b.build();
-        let svc = layer.layer(Inner::new());
+        let inner = match kv.get("ready") {
+            Some(script) => Inner::strict(script),
+            None => Inner::new(),
+        };
+        let svc = layer.layer(inner);
         Adapter { layer: Some(layer), svc: Some(svc) }
     }
 }
@@ -112,8 +143,15 @@ impl Mw for Adapter {
         let req = Req::new(c, kv);
         match poll_ready_once(&mut svc) {
             std::task::Poll::Ready(Ok(())) => {}
-            _ => {
+            std::task::Poll::Pending => {
                 log(format!("result {} notready", c));
+                return None;
+            }
+            std::task::Poll::Ready(Err(e)) => {
+                // what `poll_ready` returned, through the same rendering as the result of a call
+                let r: Out = Err(e);
+                log(format!("resp {} {}", c, detail(&r)));
+                log(format!("result {} {}", c, render(r)));
                 return None;
             }
         }
